@@ -188,9 +188,9 @@ func workC10Abs(w *run.W) {
 		_, jsightEnd := ds.extent(0, 0)
 		// eligible runs
 		type erun struct {
-			c        cut
-			a, b     int
-			atRoot   bool
+			c      cut
+			a, b   int
+			atRoot bool
 		}
 		var runs []erun
 		for _, par := range append([]int{-1}, seq(len(ds.dirs))...) {
